@@ -77,6 +77,21 @@ def make_expr(ch, params):
         body += [('%s.const' % t, 7)]
         m.funcs.append(Func(m.type_index((t, t), (t,)), locs, body))
         m.exports.append((b'dead%d' % k, 'func', len(m.funcs) - 1))
+    # many operands pending at once (x op (c1 op (c2 op ... ))): the operand stack is 60 ... 300 values deep, mixed i32 / i64
+    for k in range(2):
+        n = ch.pick((40, 62, 63, 64, 65, 66, 70, 100, 127, 128, 129, 200, 255, 256, 257, 300))
+        t = ch.pick((I32, I64))
+        body = [('local.get', 0)]
+        ops = []
+        for i in range(n):
+            if t == I64 and i % 3 == 1:
+                body += [('i32.const', i * 7 + 1), ('i64.extend_i32_u',)]
+            else:
+                body.append(('%s.const' % t, i * 2654435761 % 1000003))
+            ops.append('%s.%s' % (t, ('add', 'xor', 'sub', 'add', 'or')[i % 5]))
+        body += [(o,) for o in reversed(ops)]
+        m.funcs.append(Func(m.type_index((t,), (t,)), [], body))
+        m.exports.append((b'deepstack%d' % k, 'func', len(m.funcs) - 1))
     script = [('inst', 0)]
     fex = [(n, i) for n, kd, i in m.exports if kd == 'func']
     for e, (n, fi) in enumerate(fex):
